@@ -539,3 +539,25 @@ pub fn c11_gad_bulk() {
         i += 1;
     }
 }
+
+// contains() through the views
+#[cfg(kani)]
+#[kani::proof]
+#[kani::unwind(6)]
+pub fn c11_contains() {
+    let g = ArrG { t: any_slots(true) };
+    let x = any_qd(false);
+    let in_graph = g.find(Qd { g: 0, ..x }).is_some();
+    let r = g.as_dataset().contains(VT(x.s), VT(x.p), VT(x.o), gname(x.g));
+    assert!(r.ok() == Some(in_graph && x.g == 0), "graph-as-dataset: contains() must be true exactly for triples of the graph asked for in the default graph");
+    let d = ArrDs { q: any_slots(false) };
+    let y = any_qd(false);
+    let r2 = d.contains(VT(y.s), VT(y.p), VT(y.o), gname(y.g));
+    assert!(r2.ok() == Some(d.find(y).is_some()), "Dataset::contains (default method) differs from membership");
+    let sel: u8 = kani::any();
+    kani::assume(sel < 4);
+    let r3 = d.graph(gname(sel)).contains(VT(y.s), VT(y.p), VT(y.o));
+    assert!(r3.ok() == Some(d.find(Qd { g: sel, ..y }).is_some()), "one-graph view: contains() differs from membership of the quad with that graph name");
+    kani::cover!(in_graph && x.g == 0, "contained");
+    kani::cover!(in_graph && x.g != 0, "triple present but asked in a named graph");
+}
